@@ -211,6 +211,8 @@ func (proc *Processor) ExecuteStatement(ctx context.Context, stmt parser.Stateme
 					var writer io.Writer
 					if proc.Tx.Session.OutFile() != nil {
 						writer = proc.Tx.Session.OutFile()
+						// Colours are for the terminal: the --out file gets plain JSON.
+						exportOptions.Color = false
 					} else {
 						writer = proc.Tx.Session.Stdout()
 					}
